@@ -549,7 +549,70 @@ func c17Service(w *core.WorkerCtx) {
 	}
 }
 
+// c17Oversized: contracts whose encoded form does not fit a cache shard. Whatever the index answers, the answer and
+// the listings must agree: a save reported as done is listed for both parties and can be taken out by the receiver; a
+// refused save is listed for nobody and leaves the lists of both parties as they were.
+func c17Oversized(w *core.WorkerCtx) {
+	r := w.R
+	h, err := cache.New(800, 512)
+	if err != nil {
+		r.Inconc("cannot create the cache: " + err.Error())
+		return
+	}
+	defer h.Close()
+	I, R := ledger.NewActor("I"), ledger.NewActor("R")
+	var small []*transaction.Transaction
+	for i := 0; i < 3; i++ {
+		t := ledger.ForgeTrx(I, R.Addr, fmt.Sprintf("small %d", i), []byte("contract"), spice.Melange{}, time.Now().Add(-time.Minute))
+		if h.SaveAwaitedTransaction(&t) == nil {
+			small = append(small, &t)
+		}
+	}
+	listed := func(addr string, hash [32]byte) (bool, int) {
+		trxs, err := h.ReadTransactions(addr)
+		if err != nil {
+			return false, -1
+		}
+		for _, x := range trxs {
+			if x.Hash == hash {
+				return true, len(trxs)
+			}
+		}
+		return false, len(trxs)
+	}
+	for _, size := range []int{300 << 10, 600 << 10, 1 << 20, 4 << 20} {
+		data := make([]byte, size)
+		for i := range data {
+			data[i] = byte(i)
+		}
+		t := ledger.ForgeTrx(I, R.Addr, fmt.Sprintf("oversized %d", size), data, spice.Melange{}, time.Now().Add(-time.Minute))
+		serr := h.SaveAwaitedTransaction(&t)
+		li, ni := listed(I.Addr, t.Hash)
+		lr, nr := listed(R.Addr, t.Hash)
+		r.Eval(1)
+		r.Nontriv(fmt.Sprintf("oversized/%dKB/saved=%v/listed=%v", size>>10, serr == nil, li && lr))
+		switch {
+		case serr == nil && !(li && lr):
+			r.Violate("C17", "entries-lost/oversized", fmt.Sprintf("saving a contract of %d KB was reported as done; it is listed for the issuer: %v, for the receiver: %v", size>>10, li, lr), nil)
+		case serr != nil && (li || lr):
+			r.Violate("C17", "entries-invented/oversized", fmt.Sprintf("saving a contract of %d KB was refused (%v); it is listed for the issuer: %v, for the receiver: %v", size>>10, serr, li, lr), nil)
+		}
+		if ni != nr || ni < len(small) {
+			r.Violate("C17", "entries-lost/next-to-oversized", fmt.Sprintf("after a %d KB contract (save: %v) the issuer lists %d and the receiver %d of the %d small contracts saved before", size>>10, serr, ni, nr, len(small)), nil)
+		}
+		if serr == nil {
+			if _, err := h.RemoveAwaitedTransaction(t.Hash, R.Addr); err != nil {
+				r.Violate("C17", "saved-entry-cannot-be-removed/oversized", fmt.Sprintf("a %d KB contract reported as saved cannot be taken out by its receiver: %v", size>>10, err), nil)
+			}
+		}
+	}
+	r.Count("c17_oversized_contracts", 4)
+}
+
 func c17Worker(w *core.WorkerCtx) {
+	if w.Batch == 2 {
+		c17Oversized(w)
+	}
 	if w.Batch == 1 {
 		c17Service(w)
 	}
